@@ -30,6 +30,8 @@ func addGenerators(r *rand.Rand, t *Tree) []GenSpec {
 	for li, L := range t.Layers {
 		var cms, secs []interface{}
 		n := r.Intn(3)
+		// generatorOptions of a kustomization apply to ITS generators only (they do not reach into bases)
+		layerDisable := r.Intn(6) == 0
 		for i := 0; i < n; i++ {
 			kind := pickS(r, []string{"ConfigMap", "ConfigMap", "Secret"})
 			name := pickS(r, names)
@@ -88,6 +90,9 @@ func addGenerators(r *rand.Rand, t *Tree) []GenSpec {
 				g.Disable = true
 				opt["disableNameSuffixHash"] = true
 			}
+			if layerDisable {
+				g.Disable = true
+			}
 			e["options"] = opt
 			if kind == "ConfigMap" {
 				cms = append(cms, e)
@@ -113,6 +118,9 @@ func addGenerators(r *rand.Rand, t *Tree) []GenSpec {
 				}
 			}
 			_ = fmt.Sprint
+		}
+		if layerDisable {
+			L.Kust["generatorOptions"] = Obj{"disableNameSuffixHash": true}
 		}
 		if len(cms) > 0 {
 			L.Kust["configMapGenerator"] = cms
